@@ -4,8 +4,22 @@
 #include <stdarg.h>
 
 AllocCtl g_alloc;
-Rng *g_rand_stream = nullptr;
-int g_arch_cap = -1;
+__thread Rng *g_rand_stream = nullptr;
+__thread int g_arch_cap = -1;
+#ifdef OPSIM_MEMTRACE
+#include "threadsim.h"
+void *sim_malloc(size_t n) { if (ts_current_task() >= 0) return ts_task_alloc(n); return malloc(n); }
+void sim_free(void *p) { if (!p || ts_task_owns(p)) return; free(p); }
+void *operator new(size_t n) { void *p = sim_malloc(n ? n : 1); if (!p) abort(); return p; }
+void *operator new[](size_t n) { void *p = sim_malloc(n ? n : 1); if (!p) abort(); return p; }
+void operator delete(void *p) noexcept { sim_free(p); }
+void operator delete[](void *p) noexcept { sim_free(p); }
+void operator delete(void *p, size_t) noexcept { sim_free(p); }
+void operator delete[](void *p, size_t) noexcept { sim_free(p); }
+#else
+void *sim_malloc(size_t n) { return malloc(n); }
+void sim_free(void *p) { free(p); }
+#endif
 long g_arch_calls = 0;
 
 struct Blk { size_t size; int spacer; };
@@ -21,7 +35,7 @@ extern "C" void *opsim_alloc(size_t size) {
   long k = g_alloc.count++;
   if (k == g_alloc.fail_at) { g_alloc.failed++; return nullptr; }
   int sp = g_alloc.spacer;
-  unsigned char *raw = (unsigned char *)malloc(size + sp);
+  unsigned char *raw = (unsigned char *)sim_malloc(size + sp);
   if (!raw) return nullptr;
   fill_block(raw, size + sp);
   void *user = raw + sp;
@@ -37,13 +51,13 @@ extern "C" void opsim_free(void *p) {
     abort();
   }
   memset(p, 0xDD, it->second.size);     // scribble before release
-  free((unsigned char *)p - it->second.spacer);
+  sim_free((unsigned char *)p - it->second.spacer);
   g_live->erase(it);
   g_alloc.live--;
 }
 void alloc_reset_run() {
   if (g_live) {
-    for (auto &kv : *g_live) free((unsigned char *)kv.first - kv.second.spacer);
+    for (auto &kv : *g_live) sim_free((unsigned char *)kv.first - kv.second.spacer);
     g_live->clear();
   }
   g_alloc = AllocCtl();
